@@ -21,7 +21,7 @@ from harness import nestedfile as NF
 
 TRUSTED = [
     "Coq 8.16.1 kernel + coqc (vm_compute for the computed witnesses of the _refuted theorems and the closed Example); no native_compute",
-    "extraction: ExtrOcamlBasic only, no Extract Constant; ocaml/driver.ml s-expression I/O",
+    "extraction: ExtrOcamlBasic only, no Extract Constant; ocaml/driver.ml s-expression I/O (cross-checked on every run: 20 sampled pqref commands re-evaluated by vm_compute in coqc, Example extract_agrees_k)",
     "impl model Impl/CAssemble.v is a hand transcription of cencoding.pyx _assemble_objects and of the call sites in core.py (tie: correspondence on every run, .pyx-vs-.c staleness check)",
     "the spec-level nested file writer harness/nestedfile.py (hybrid RLE / PLAIN / dictionary page payloads written from Encodings.md in Python; shred cross-checked against the proved Coq shred on every file); page headers and footer serialised with fastparquet's own thrift classes (C10)",
     "everything below record assembly when a file is read (level and value decoding, thrift parsing, pandas allocation of the object column) is exercised, not modelled here (C03/C11/C10)",
@@ -218,6 +218,35 @@ def m_result(res):
     if res and res[0] == b"error":
         raise RuntimeError("pqref: %r" % (res,))
     return ("?", res)
+
+
+def gallina_sx(x):
+    """Python value (as sent to / parsed from pqref) -> Gallina term of type Sx.sx"""
+    if isinstance(x, bool):
+        return "SZ %d%%Z" % (1 if x else 0)
+    if isinstance(x, int):
+        return "SZ (%d)%%Z" % x
+    if isinstance(x, (bytes, bytearray)):
+        return "SB [%s]" % "; ".join("%d%%N" % b for b in x)
+    if isinstance(x, str):
+        return 'S_ "%s"' % x
+    if x is None:
+        return "SL []"
+    return "SL [%s]" % "; ".join(gallina_sx(e) for e in x)
+
+
+def extraction_agrees(ctx, samples):
+    """DESIGN 3.2: the extracted binary and the kernel (vm_compute) agree on sampled commands:
+    Example extract_agrees_k : Cmd.run input_k = output_k, output_k = what pqref printed."""
+    path = os.path.join(ctx.gen_dir, "ExtractAgreesC15.v")
+    with open(path, "w") as f:
+        f.write("From Coq Require Import NArith ZArith List String.\n"
+                "From Pq Require Import Base.Bytes Extract.Sx Extract.Cmd.\n"
+                "Import ListNotations.\nOpen Scope string_scope.\n")
+        for k, (cmd, out) in enumerate(samples):
+            f.write("Example extract_agrees_%d : Cmd.run (%s) = (%s).\nProof. vm_compute. reflexivity. Qed.\n"
+                    % (k, gallina_sx(list(cmd)), gallina_sx(out)))
+    ctx.coq_file(path)
 
 
 # ---------------------------------------------------------------------------------------------
@@ -450,6 +479,8 @@ def stage_direct(ctx, pq, w):
         cmds.append(("split_guard", ro, eo, mp))
         metas.append((ro, eo, rows, cuts, v, pages, vt, max_def))
     outs = pq.batch(cmds)
+    small = [k for k in range(len(cmds)) if len(json.dumps(cmds[k], default=repr)) < 400]
+    extraction_agrees(ctx, [(cmds[k], outs[k]) for k in sorted(rng.sample(small, min(20, len(small))))])
     conf_budget = {}
     for k, (ro, eo, rows, cuts, v, pages, vt, max_def) in enumerate(metas):
         m = m_result(outs[3 * k])
